@@ -258,9 +258,47 @@ def rule_arith(ctx, db):
     ctx.floor("R5", "checked subtractions / open-ended indexes in compio-buf and the pool buffer", n, 13)
 
 
+def rule_vectored_and_narrowing(ctx, db):
+    R = ctx.rule
+    R("R6", "same-value", "recording n bytes on a *vectored* buffer raises each member's length individually (a member that already "
+      "holds bytes is neither skipped nor shrunk); a pool buffer narrows a requested size to its u32 fields only after clamping it")
+    if not any(n.startswith(BUF) for n in db.adts):
+        return
+    av = [f for f in db.fns.values() if f.name == "compio_buf::io_buf::SetLenExt::advance_vec_to"]
+    if not av:
+        ctx.missing("R6", "SetLenExt::advance_vec_to")
+    for f in av:
+        gates_on_total = bool(calls(f, r"IoVectoredBuf::total_len$"))
+        ctx.ob("R6", "vectored-advance-is-per-member", not gates_on_total,
+               "advance_vec_to decides from the *total* initialised length of all members (total_len) and then sets one total "
+               "that is distributed by capacity: with members that already hold bytes the received bytes stay invisible or a "
+               "later member shrinks" if gates_on_total else "advance_vec_to works member by member", f)
+    br = "compio_driver::buffer_pool::BufferRef"
+    if br in db.adts:
+        n = 0
+        for nm in ("set_capacity", "set_len"):
+            for f in [g for g in db.fns.values() if g.impl and g.impl.get("self_adt") == br and g.short == nm]:
+                for bi, si, st in f.stmts():
+                    r = st.get("r", {})
+                    if r.get("k") != "cast" or "IntToInt" not in (r.get("x") or ""):
+                        continue
+                    a = st.get("a")
+                    dst_ty = f.local_ty(a["l"]) if a and not a["p"] else ("u32" if a and any(isinstance(e, list) and e[0] == "f" and e[2] in ("cap", "len") for e in a["p"]) else "")
+                    src = op_place(r["ops"][0]) if r.get("ops") else None
+                    if dst_ty != "u32" or src is None or f.local_ty(src["l"]) != "usize":
+                        continue
+                    n += 1
+                    locs, cr, places = data_deps(f, src["l"])
+                    ctx.ob("R6", "pool-buffer-narrows-after-clamp:%s" % nm, any(call_matches(ct, r"core::cmp::Ord::min$") for _, ct in cr),
+                           "the usize -> u32 cast takes the already clamped value (min(requested, bound)); casting first would wrap a "
+                           "request of 1 << 32 bytes to 0", f)
+        ctx.floor("R6", "usize -> u32 narrowings in BufferRef setters", n, 2)
+
+
 def rules_all(ctx, db):
     rules(ctx, db)
     rule_arith(ctx, db)
+    rule_vectored_and_narrowing(ctx, db)
     if ctx.tier == "thorough" and ctx.cfg == "A":
         from .. import witness
         witness.obligations(ctx, "C10")
